@@ -1007,6 +1007,83 @@ def judge(ctx, D, S, r, mv, stats):
     return clean
 
 
+def _kw_probe_worker(job):
+    """KEYWORD in the root file, keyword-like string terminals in an imported file: the modular grammar
+    and its flattening accept the same inputs with the same error positions"""
+    import parglare
+    from parglare import GLRParser, Grammar, Parser
+    from lib import impl
+    k1, k2, k3, kwre, alias = job
+    tmp = tempfile.mkdtemp(prefix="c20kw")
+    out = {"job": list(job), "rows": []}
+    try:
+        files = {
+            "root.pg": "import 'lib.pg'%s;\nS: '%s' %s.Stmt ';' | %s.Stmt ';';\nterminals\nKEYWORD: %s;\n"
+                       % ((" as " + alias) if alias != "lib" else "", k1, alias, alias, kwre),
+            "lib.pg": "Stmt: '%s' NAME '%s' NAME | NAME;\nterminals\nNAME: /[a-z]+/;\n" % (k2, k3),
+        }
+        flat = ("S: '%s' Stmt ';' | Stmt ';';\nStmt: '%s' NAME '%s' NAME | NAME;\nterminals\nKEYWORD: %s;\n"
+                "NAME: /[a-z]+/;\n" % (k1, k2, k3, kwre))
+        out["files"], out["flat"] = files, flat
+        for n, t in files.items():
+            with open(os.path.join(tmp, n), "w") as f:
+                f.write(t)
+        ins = []
+        for a in ("", k1 + " ", k1):
+            for b in (k2 + " x ", k2 + "x ", k2 + " x"):
+                for c in (k3 + " y", k3 + "y"):
+                    ins.append(a + b + c + ";")
+        ins += ["x;", k1 + " x;", k1 + "x;", k2 + ";", k1 + k2 + " x " + k3 + " y;"]
+        for cls, cname in ((Parser, "lr"), (GLRParser, "glr")):
+            with impl.time_limit(30), impl.quiet():
+                gm = Grammar.from_file(os.path.join(tmp, "root.pg"))
+                gm.file_path = None
+                pm = cls(gm)
+                pf = cls(Grammar.from_string(flat))
+            for w in ins:
+                r = []
+                for p in (pm, pf):
+                    try:
+                        with impl.time_limit(10):
+                            x = p.parse(w)
+                        r.append(["ok", len(x) if cname == "glr" else 1])
+                    except parglare.SyntaxError as e:
+                        r.append(["SyntaxError", e.location.start_position])
+                    except BaseException as e:  # noqa
+                        r.append(["exc", impl.exc_kind(e)])
+                out["rows"].append([cname, w, r[0], r[1]])
+    except BaseException as e:  # noqa
+        out["err"] = impl.exc_kind(e) + ": " + str(e)[:200].replace(tmp, "")
+    finally:
+        shutil.rmtree(tmp, ignore_errors=True)
+    return out
+
+
+def keyword_imports(ctx, stats):
+    rng = ctx.rng
+    jobs = []
+    words = ["let", "for", "in", "if", "to", "of", "do"]
+    for _ in range(6 if ctx.quick() else 60):
+        k1, k2, k3 = rng.sample(words, 3)
+        jobs.append((k1, k2, k3, rng.choice(["/\\w+/", "/[a-z]+/"]), rng.choice(["lib", "l", "stmts"])))
+    with mp.Pool(common.NPROC) as pool:
+        outs = pool.map(_kw_probe_worker, jobs, chunksize=1)
+    stats["keyword_import_grammars"] = len(outs)
+    stats["keyword_import_parses"] = 0
+    for o in outs:
+        if o.get("err"):
+            if "Timeout" not in o["err"]:
+                ctx.violation("grammar with KEYWORD in the root and keywords in an imported file failed: %s" % o["err"],
+                              {"directory": o.get("files"), "flat": o.get("flat")}, key="kw-imp-err")
+            continue
+        for cname, w, a, b in o["rows"]:
+            stats["keyword_import_parses"] += 1
+            if a != b and "Timeout" not in (a[1], b[1]):
+                ctx.violation("KEYWORD with imports: %s on %r modular %r, flattened %r" % (cname, w, a, b),
+                              {"directory": o["files"], "flat": o["flat"], "input": w}, key="kw-imp-" + cname)
+                break
+
+
 def run(ctx):
     tier = ctx.tier
     ncases = 700 if ctx.quick() else 6000
@@ -1038,6 +1115,7 @@ def run(ctx):
              "kf_inline": 0, "kf_cycle": 0, "timeouts": 0, "files": {}, "cyclic": 0,
              "theorem_class": {"no_override_and_consistent": 0, "has_override": 0, "inconsistent_imports": 0},
              "clean_ok": 0}
+    keyword_imports(ctx, stats)
     distinct = set()
     samples = []
     for k, (D, S, r) in enumerate(zip(dirs, specs, results)):
